@@ -164,6 +164,21 @@ pub fn fail_result(e: WalkFail) -> CaseResult {
     }
 }
 
+/// a failed walk as a judgement: a panic of the physical planner is a violation (the engine's policy for panics of the
+/// code under test), every other planning failure a discard
+pub fn fail_judged(e: WalkFail, case: &WalkCase) -> Judged {
+    if let WalkFail::Plan(pe) = &e {
+        if pe.stage == "physical-planner-panic" {
+            let pwmj = case.variant.options.iter().any(|(k, v)| k.ends_with("enable_piecewise_merge_join") && v == "true");
+            // known finding: with enable_piecewise_merge_join the planner's `side_of` reaches unreachable!() for an ON
+            // comparison one side of which references no column
+            let sig = (pwmj && pe.message.contains("unreachable")).then(|| "piecewise-merge-join-planner-unreachable".to_string());
+            return Judged { findings: vec![Finding { sig, msg: format!("the physical planner panicked: {}{}", pe.message, case.describe()) }], result: CaseResult::pass().label("planner-panic") };
+        }
+    }
+    Judged::clean(fail_result(e))
+}
+
 impl Property for C30 {
     type Case = WalkCase;
     fn id(&self) -> &'static str {
@@ -201,7 +216,7 @@ impl Property for C30 {
 fn judge(case: &WalkCase) -> Judged {
     let w = match walk::walk(case) {
         Ok(w) => w,
-        Err(e) => return Judged::clean(fail_result(e)),
+        Err(e) => return fail_judged(e, case),
     };
     let labels = walk::plan_labels(case, &w);
     let (f, mut findings) = check(&w);
